@@ -1333,7 +1333,7 @@ def gen_tuple_program(x, y):
 # the same block (and of other blocks), at any nesting depth, through generic functions in between, with early returns.
 # Three outputs are compared: the model's trace (bin/c11_model CTX, mapped through a measured size table), the generic
 # program on main, the monomorphised twin on main.
-CTX_TYPES = ["char", "short", "int", "long", "long", "int", "short", "bool", "string", "P", "Box<long>"]
+CTX_TYPES = ["char", "short", "int", "long", "long", "int", "short", "bool", "string", "P", "Box<long>", "Duo<int, long>", "Duo<short, long>"]
 CTX_BLOCKS = {
     # base -> (type parameters, interface name, fields)
     "Cell": (["T"], "Sized", [("T", "value"), ("int", "tag")]),
@@ -1402,13 +1402,17 @@ class CtxProgram:
                 lines.append("    %s %s; %s.tag = n;" % (ty, v, v))
                 macts.append("D %s %s" % (enc(v), enc(ty)))
                 env.append((v, ty))
-            elif a[0] == "C":
+            elif a[0] in ("C", "Y"):
+                # Y: `try v.m(...)` - a run-time error of the callee (any depth below) is caught here and the body goes on
                 v, base, m = a[1], a[2], a[3]
-                md = [x for x in self.blocks[base] if x["name"] == m][0]
-                args = [var_of_type(pt) for _, pt in md["sparams"]]
+                sp = [] if m == "fail" else [x for x in self.blocks[base] if x["name"] == m][0]["sparams"]
+                args = [var_of_type(pt) for _, pt in sp]
                 r = fresh("r")
-                lines.append("    int %s = %s.%s(%s);" % (r, v, m, ", ".join(["n - 1"] + args)))
-                macts.append("C %s %s" % (enc(v), enc(m)))
+                if a[0] == "C":
+                    lines.append("    int %s = %s.%s(%s);" % (r, v, m, ", ".join(["n - 1"] + args)))
+                else:
+                    lines.append("    Result<int, RuntimeError> %s = try %s.%s(%s);" % (r, v, m, ", ".join(["n - 1"] + args)))
+                macts.append("%s %s %s" % (a[0], enc(v), enc(m)))
             elif a[0] == "P":
                 # v.put(n - 1, <literal of the receiver's first type argument>, ...): the T-typed parameters of `put` are
                 # resolved from the RECEIVER's instantiation (call_impl.cpp: impl.type_parameter_map of the receiver's struct type)
@@ -1451,6 +1455,11 @@ class CtxProgram:
             texts.append("  %s {\n    println(%s);\n    println(sizeof(%s));\n    return n;\n  }" % (
                 psig, ", ".join("x%d" % i for i in range(len(params))), params[0]))
             mm.append(("put", [], ["O %s" % enc(params[0])]))
+            # a method that always ends in a run-time error (division by zero) after observing its own parameter
+            fsig = "int fail(int n)"
+            sigs.append(fsig)
+            texts.append("  %s {\n    println(sizeof(%s));\n    int z = 10 / (n - n);\n    return z;\n  }" % (fsig, params[-1]))
+            mm.append(("fail", [], ["O %s" % enc(params[-1]), "F"]))
             pr.ifaces[iface] = (params, sigs)
             pr.impls.append((iface, base, params, texts))
             mblocks.append((base, params, mm))
@@ -1485,7 +1494,7 @@ class CtxProgram:
         for ty, v in self.main_vars.items():
             m.append("  %s %s; %s.tag = 1;" % (ty, v, v))
         for i, (v, rty, meth, n, args) in enumerate(self.calls):
-            m.append("  int q%d = %s.%s(%s);" % (i, v, meth, ", ".join([str(n)] + args)))
+            m.append("  Result<int, RuntimeError> q%d = try %s.%s(%s);" % (i, v, meth, ", ".join([str(n)] + args)))
             m.append('  println("--");')
         pr.main = "void main() {\n" + "\n".join(m) + "\n}\n"
         pr.meta = dict(self.meta)
@@ -1579,9 +1588,6 @@ def gen_ctx_program(seed, k, shape=None):
                     ob, ops, args = own_base, params, list(params)
                 else:
                     args = [rng.choice(uni) for _ in ops]
-                if len(ops) > 1:
-                    # a tuple with a nested instance (Duo<Box<long>, int>) is cut at every comma by find_impl_for_struct
-                    args = [a if "<" not in a else rng.choice(flat) for a in args]
                 acts.append(("D", v, ctx_inst_name(ob, args)))
                 env.append((v, ob, ctx_inst_name(ob, args)))
             elif r < 0.85 and env:
@@ -1590,7 +1596,15 @@ def gen_ctx_program(seed, k, shape=None):
                 if ob in cp.blocks and targs and all(t in CTX_LIT for t in targs) and rng.random() < 0.3:
                     acts.append(("P", v, targs))
                 elif ob in cp.blocks:
-                    acts.append(("C", v, ob, rng.choice(cp.blocks[ob])["name"]))
+                    q = rng.random()
+                    if q < 0.10:
+                        acts.append(("Y", v, ob, "fail"))                                   # the error is caught right here
+                    elif q < 0.22:
+                        acts.append(("Y", v, ob, rng.choice(cp.blocks[ob])["name"]))        # ... or comes from deeper frames
+                    elif q < 0.25:
+                        acts.append(("C", v, ob, "fail"))                                   # ... and passes this frame
+                    else:
+                        acts.append(("C", v, ob, rng.choice(cp.blocks[ob])["name"]))
                     if rng.random() < 0.7:
                         acts.append(("O", rng.choice(type_forms(params)), rng.randint(0, 3)))
             elif r < 0.93 and with_fns:
@@ -1714,7 +1728,7 @@ def run_ctx_stage(rep, seed, seeds, quick, impl_dir, mbin, hist, proof_broken):
         hist["prog-" + fam] = hist.get("prog-" + fam, 0) + 1
         calls += len(gs)
         cross_obs += sum(len(x) - 2 for x in gs)
-        pred_ok = all(x[0] in ("N", "R") and x[1] == "0" for x in gs) and all(dec(y) in table or dec(y).startswith("#") for x in gs for y in x[2:])
+        pred_ok = all(x[0] in ("N", "R", "E") and x[1] == "0" for x in gs) and all(dec(y) in table or dec(y).startswith("#") for x in gs for y in x[2:])
         pred = "".join("".join((dec(y)[1:] if dec(y).startswith("#") else table.get(dec(y), "?")) + "\n" for y in x[2:]) + "--\n" for x in gs)
         if t[0] == 0 and t[1].strip():
             distinct.add(t[1])
@@ -2092,7 +2106,7 @@ def _run_body(rep, seed, tier, quick, lap, cq, proof_broken, new_missing, pinned
         "generic impl blocks: the model of the type-context stack sees a method body as its context-relevant statements; what an observation prints is "
         "the size of the resolved name, measured from main on the same binary; constructors/destructors and sizeof_type/array_get/array_set are outside the model",
         "generated impl-block programs avoid the recorded findings: parameters spelled over T (Cell<T> o), locals over T other than the block's own "
-        "spelling, tuple-typed type arguments, default constructors, constructor/destructor impls with parameters not called T, failing calls under try",
+        "spelling, default constructors, constructor/destructor impls with parameters not called T, impl statics",
         "parse_type_from_string is modelled with an empty typedef registry (generated programs contain no typedef)",
         "the monomorphiser that writes the twin (textual substitution of the type parameters, name mangling) is the property's oracle and is trusted",
         "generated programs avoid `ident <` comparisons and `(type)(ident)` casts (parser findings #36/#37 of C02/C10), string payloads in generic enums (C13)",
